@@ -182,6 +182,14 @@ m('c18_string_type_listens_to_everything', ['C18'], S,
   ("            event_key: str = event_type.__name__ if isinstance(event_type, type) else str(event_type)  # pyright", "            event_key: str = event_type.__name__ if isinstance(event_type, type) else '*'  # pyright"))
 m('c18_timeout_from_first_candidate', ['C18'], S,
   ("            if not future.done() and include(event) and not exclude(event):\n                future.set_result(event)", "            if not future.done() and include(event) and not exclude(event):\n                future.set_result(event)\n            elif not future.done() and timeout is not None and not include(event):\n                future.set_exception(TimeoutError())"))
+m('c19_failure_streak_shared_between_calls', ['C19'], H,
+  ("""    for attempt in range(retries + 1):
+        try:
+            # Execute with per-attempt timeout""", """    func.__dict__['_failures'] = 0
+    for attempt in range(retries + 1):
+        try:
+            # Execute with per-attempt timeout"""),
+  ("                current_wait = wait * (backoff_factor**attempt)", "                func.__dict__['_failures'] += 1\n                current_wait = wait * (backoff_factor ** (func.__dict__['_failures'] - 1))"))
 m('c20_release_skipped_on_cancel', ['C20'], H,
   ("            finally:\n                # Clean up: decrement active operations and release semaphore\n                _track_active_operations(increment=False)\n", "            except asyncio.CancelledError:\n                _track_active_operations(increment=False)\n                raise\n            finally:\n                # Clean up: decrement active operations and release semaphore\n                _track_active_operations(increment=False)\n"),
   ("                if semaphore_acquired and semaphore:\n                    try:", "                import sys as _sys\n                if semaphore_acquired and semaphore and not isinstance(_sys.exc_info()[1], asyncio.CancelledError):\n                    try:"))
